@@ -5,6 +5,8 @@ import CanvasProofs.Lemmas.C13Num
 import CanvasProofs.Lemmas.C13Pages
 import CanvasProofs.Lemmas.C13ParseE
 import CanvasProofs.Lemmas.C13Res
+import CanvasProofs.Lemmas.C13ParseF
+import CanvasProofs.Lemmas.C13Refs
 
 /-! # C13 — every PDF produced is structurally valid: theorems about the writer model
 `Canvas.C13` (hand-written model of /repo/renderers/pdf/writer.go, tied by correspondence).
@@ -12,7 +14,7 @@ All theorems quantify over arbitrary operation histories `ops`, arbitrary values
 environment `env` (zlib, clock, contents of the font objects). -/
 namespace C13
 open Canvas.C13 C13L
-open Canvas.C13.P (parseVal norm size decShape)
+open Canvas.C13.P (parseVal norm size decShape parseStreamObj normKvs sizeKvs)
 
 /-- `pos` is the number of bytes written, after any history. -/
 theorem pos_tracks_length (env : Env) (ops : List Op) (s : St) (h : run env {} ops = some s) :
@@ -117,6 +119,40 @@ theorem page_count (env : Env) (ops : List Op) (s : St) (h : run env {} ops = so
   have hl : (close env s).st.pages.length = ops.countP isNewPage := by rw [e, hf.1, hp, e0]; simp
   exact ⟨hl, by simp [pagesDict, hl]⟩
 
+/-! ### every reference the writer generates resolves -/
+
+/-- For any history: after `Close`, with `N` the length of the object table (= number of xref
+entries − 1 = `/Size` − 1): every kid `r` of the page tree satisfies `2 ≤ r ≤ N` (its content
+stream is object `r − 1`, written just before it), every font and image reference in every written
+page's resources is in `1..N`, and the fixed references `/Root 1`, `/Info 2`, `/Pages 3`, `/Parent 3`
+are in `1..N`. Together with `offsets_exact` (entry `n` of the table is the byte offset of
+"n 0 obj") each of these references resolves to exactly one cross-reference entry, which points at
+the object carrying that number. -/
+theorem references_resolve (env : Env) (ops : List Op) (s : St) (h : run env {} ops = some s) :
+    3 ≤ (close env s).st.core.offs.length
+    ∧ (∀ r ∈ (close env s).st.pages, 2 ≤ r ∧ r ≤ (close env s).st.core.offs.length)
+    ∧ (∀ p ∈ (close env s).st.done,
+        (∀ e ∈ p.fonts, 1 ≤ e.2 ∧ e.2 ≤ (close env s).st.core.offs.length)
+        ∧ (∀ e ∈ p.xobjs, 1 ≤ e.2 ∧ e.2 ≤ (close env s).st.core.offs.length)) := by
+  have hi := (refinv_flush env (refinv_run env ops refinv_init h)).1
+  have hl := close_len env s
+  have ep : (close env s).st.pages = (flushPage env s).pages := by simp [close, closeBody]
+  refine ⟨(inv_close env (sinv_run env ops sinv_init0 h)).three, ?_, ?_⟩
+  · rw [ep]; exact fun r hr => ⟨(hi.pages r hr).1, Nat.le_trans (hi.pages r hr).2 hl⟩
+  · rw [close_done]
+    intro p hp
+    have := (hi.done p hp).mono hl
+    exact ⟨fun e he => this.1 e he, fun e he => this.2 e he⟩
+
+/-- `writePage`: the content stream is object `n+1`, the page object is `n+2` and its dictionary
+refers to `n+1` as `/Contents` and to 3 as `/Parent` (`n` = table length before). -/
+theorem page_contents_ref (env : Env) (compress : Bool) (c : Core) (p : Page) :
+    (writePage env compress c p).2 = c.offs.length + 2
+    ∧ ∃ v, (writePage env compress c p).1 = (c.writeObject v).writeObject (pageDict p 3 (c.offs.length + 1)) := by
+  constructor
+  · simp [writePage, writeObject_len]
+  · exact ⟨_, by simp only [writePage, writeObject_len]; rfl⟩
+
 /-! ### page-local resource names -/
 
 /-- For any history over any number of pages: every resource name that `SetFont`, `SetAlpha`,
@@ -169,7 +205,7 @@ theorem text_roundtrip (rs : List Nat) (h : ∀ r ∈ rs, r < 0xD800 ∨ (0xE000
 /-! ### nested values: serialise, then parse -/
 
 /-- For EVERY value tree of booleans, integers, printed numbers, strings, references, names, arrays
-and dictionaries (names regular, numbers of digits/sign/point, dictionary entries given in the
+and dictionaries (names of regular characters without `#`, numbers in PDF number syntax, dictionary entries given in the
 writer's canonical order), the object parser reads the serialisation back as the same tree
 (integers as their text) and stops exactly at the tail, which may be empty or start with a delimiter. -/
 theorem value_roundtrip (v : Val) (T : Bytes) (hw : wf v = true)
@@ -197,7 +233,53 @@ theorem printed_number_wf (neg : Bool) (ip fr : Bytes) (hip : ip.all Canvas.C13.
     (hfr : fr.all Canvas.C13.Rd.isDigit = true) (hne : ip ≠ [] ∨ fr ≠ []) :
     wf (.num (decShape neg ip fr)) = true := by
   simp only [wf]
-  exact decShape_numTok neg ip fr hip hfr hne
+  exact decShape_isNumTok neg ip fr hip hfr hne
+
+/-- A stream object reads back: its dictionary carries the `/Length` the writer computed and exactly
+`body` lies between `stream\n` and `\nendstream` — for any dictionary (entries in canonical order
+once `/Length` is set) and ANY byte string `body`, compressed or not. -/
+theorem stream_roundtrip (kvs : List (Bytes × Val)) (body T : Bytes)
+    (hw : wfKvs (withLen kvs body.length) = true) (hc : canonOK (setLength (serKvs kvs) body.length) = true) :
+    parseStreamObj (1 + sizeKvs (withLen kvs body.length)) (ser (.stream kvs body) ++ T)
+      = some (normKvs (withLen kvs body.length), body, 0x0A :: T) :=
+  rt_stream kvs body T _ hw hc (Nat.le_refl _)
+
+/-- Page content streams as `writePage` writes them. The Flate wrapper is an external function with
+the contract `inflate (flate b) = b`: under it a reader recovers exactly the page's content bytes,
+with compression (`/Filter/FlateDecode`, `/Length` = compressed size) and without. -/
+theorem content_stream_recovered (env : Env) (inflate : Bytes → Bytes) (hz : ∀ b, inflate (env.flate b) = b)
+    (b T : Bytes) :
+    (∃ d, parseStreamObj 6 (ser (.stream [(kFilter, .name nFlate)] (env.flate b)) ++ T) = some (d, env.flate b, 0x0A :: T)
+        ∧ d = [(kFilter, .name nFlate), (kLength, .num (natBytes (env.flate b).length))]
+        ∧ inflate (env.flate b) = b)
+    ∧ parseStreamObj 4 (ser (.stream [] b) ++ T) = some ([(kLength, .num (natBytes b.length))], b, 0x0A :: T) := by
+  have srt : ∀ n : Nat, canonOK (setLength (serKvs [(kFilter, .name nFlate)]) n) = true := by
+    intro n
+    exact canonOK_of_canonical none none [(kFilter, false, 0x2F :: nFlate), (kLength, true, natBytes n)]
+      (fun _ h => by cases h) (fun _ h => by cases h) rfl rfl
+  have srt0 : ∀ n : Nat, canonOK (setLength (serKvs []) n) = true := by
+    intro n
+    exact canonOK_of_canonical none none [(kLength, true, natBytes n)]
+      (fun _ h => by cases h) (fun _ h => by cases h) rfl rfl
+  constructor
+  · refine ⟨_, rt_stream [(kFilter, .name nFlate)] (env.flate b) T 6 rfl (srt _) (Nat.le_refl 6), ?_, hz b⟩
+    rfl
+  · exact rt_stream [] b T 4 rfl (srt0 _) (Nat.le_refl 4)
+
+/-- Tokens that are not PDF numbers — what Go prints for non-finite floats — are rejected by the
+object parser, whatever follows. -/
+theorem nonfinite_rejected (f : Nat) :
+    parseVal f (asc "NaN") = none ∧ parseVal f (asc "+Inf]") = none ∧ parseVal f (asc "-Inf ") = none := by
+  cases f with
+  | zero => exact ⟨rfl, rfl, rfl⟩
+  | succ f => exact ⟨rfl, rfl, rfl⟩
+
+/-- The unescaped name writer is NOT a round trip for every byte string: a `#` followed by two
+hexadecimal digits is read as one byte (7.3.5). `writeVal(pdfName)` does not escape; the names the
+library itself emits (resource names, dictionary keys, PostScript font names) contain no `#` and no
+delimiter, which is the hypothesis `nameOK` of `value_roundtrip`. -/
+theorem name_hash_not_verbatim :
+    parseVal 2 (ser (.name (asc "A#42"))) = some (.name (asc "AB"), []) := rfl
 
 /-- non-vacuity: a nested page-like dictionary satisfies the hypotheses -/
 example : wf (.dict [(asc "Type", .name (asc "Page")), (asc "Subtype", .name (asc "X")),
